@@ -52,7 +52,20 @@ var engineBProps = map[string]*engineB{
 }
 
 func env() []string {
-	return append(os.Environ(), "GOFLAGS=-mod=mod", "GOPROXY=off", "GOSUMDB=off", "GOTOOLCHAIN=local")
+	e := append(os.Environ(), "GOPROXY=off", "GOSUMDB=off", "GOTOOLCHAIN=local")
+	if !strings.Contains(os.Getenv("GOFLAGS"), "-modfile") {
+		e = append(e, "GOFLAGS=-mod=mod")
+	}
+	return e
+}
+
+// repoDir is the checkout under test (/repo unless VERIF_REPO redirects a
+// development run to a scratch copy).
+func repoDir() string {
+	if r := os.Getenv("VERIF_REPO"); r != "" {
+		return r
+	}
+	return "/repo"
 }
 
 func run(dir string, out *bytes.Buffer, name string, args ...string) error {
@@ -71,7 +84,7 @@ func run(dir string, out *bytes.Buffer, name string, args ...string) error {
 
 func repoStatus() string {
 	var b bytes.Buffer
-	run("/repo", &b, "git", "status", "--porcelain")
+	run(repoDir(), &b, "git", "status", "--porcelain")
 	return b.String()
 }
 
